@@ -265,14 +265,17 @@ Section Walk.
     assert (E : str_eqb k n = false) by (apply str_eqb_neq; assumption). rewrite E. reflexivity.
   Qed.
 
-  Lemma copy_tree_frame : forall ex dry n x d k, k <> n -> alookup k (fst (copy_tree cf ex dry n x d)) = alookup k d.
+  Lemma copy_tree_gen_frame : forall pr dry n x d k, k <> n -> alookup k (fst (copy_tree_gen cf pr dry n x d)) = alookup k d.
   Proof.
-    intros. unfold copy_tree. destruct dry.
+    intros. unfold copy_tree_gen. destruct dry.
     - destruct (fix_F4 cf); [reflexivity|].
-      destruct (skel_node cf (if fix_excl cf then prune ex x else x)) as [s r]. simpl.
+      destruct (skel_node cf (if fix_excl cf then pr x else x)) as [s r]. simpl.
       apply alookup_snoc_other. assumption.
     - simpl. apply alookup_snoc_other. assumption.
   Qed.
+
+  Lemma copy_tree_frame : forall ex dry n x d k, k <> n -> alookup k (fst (copy_tree cf ex dry n x d)) = alookup k d.
+  Proof. intros. apply copy_tree_gen_frame. assumption. Qed.
 
   Lemma step1_frame : forall o sdir, frame_step (fun n => n) (step1 o sdir).
   Proof.
@@ -323,7 +326,7 @@ Section Walk2.
       destruct (alookup n sdir) as [[c m|es]|]; try reflexivity.
       - rewrite Hdry. apply CF.
       - destruct (o_recursive o) eqn:Er; [|reflexivity].
-        destruct H4 as [H4|H4]; [|discriminate]. unfold copy_tree. rewrite Hdry, H4. reflexivity. }
+        destruct H4 as [H4|H4]; [|discriminate]. unfold copy_tree, copy_tree_gen. rewrite Hdry, H4. reflexivity. }
     assert (S2 : forall n d, fst (step2 cf o sdir subdir n d) = d).
     { intros n d. unfold step2. destruct (excluded o n); [reflexivity|].
       destruct (o_strategy o) as [s|]; [|reflexivity].
@@ -449,16 +452,21 @@ Section Walk3.
     simpl. rewrite !alookup_aset_same. auto.
   Qed.
 
-  Lemma copy_tree_local : forall ex dry n x d d', alookup n d = alookup n d' ->
-    alookup n (fst (copy_tree cf ex dry n x d)) = alookup n (fst (copy_tree cf ex dry n x d'))
-    /\ snd (copy_tree cf ex dry n x d) = snd (copy_tree cf ex dry n x d').
+  Lemma copy_tree_gen_local : forall pr dry n x d d', alookup n d = alookup n d' ->
+    alookup n (fst (copy_tree_gen cf pr dry n x d)) = alookup n (fst (copy_tree_gen cf pr dry n x d'))
+    /\ snd (copy_tree_gen cf pr dry n x d) = snd (copy_tree_gen cf pr dry n x d').
   Proof.
-    intros. unfold copy_tree. destruct dry.
+    intros. unfold copy_tree_gen. destruct dry.
     - destruct (fix_F4 cf); [simpl; auto|].
-      destruct (skel_node cf (if fix_excl cf then prune ex x else x)) as [s r]. simpl.
+      destruct (skel_node cf (if fix_excl cf then pr x else x)) as [s r]. simpl.
       rewrite !alookup_app, H. auto.
     - simpl. rewrite !alookup_app, H. auto.
   Qed.
+
+  Lemma copy_tree_local : forall ex dry n x d d', alookup n d = alookup n d' ->
+    alookup n (fst (copy_tree cf ex dry n x d)) = alookup n (fst (copy_tree cf ex dry n x d'))
+    /\ snd (copy_tree cf ex dry n x d) = snd (copy_tree cf ex dry n x d').
+  Proof. intros. apply copy_tree_gen_local. assumption. Qed.
 
   Lemma step1_local : forall o sdir, local_step (fun n => n) (step1 cf o sdir).
   Proof.
@@ -908,7 +916,7 @@ Section Walk6.
     intros. unfold step1. destruct (excluded o n); [reflexivity|].
     destruct (alookup n sdir) as [[c m|es]|]; try reflexivity.
     - unfold copy_file. rewrite H. reflexivity.
-    - destruct (o_recursive o); [|reflexivity]. unfold copy_tree. rewrite H. reflexivity.
+    - destruct (o_recursive o); [|reflexivity]. unfold copy_tree, copy_tree_gen. rewrite H. reflexivity.
   Qed.
 
   Lemma run_steps_all_none : forall A (f : A -> dir -> wstate) l d,
@@ -990,7 +998,7 @@ Section Walk7.
         * unfold copy_file. rewrite Hdry. simpl. rewrite alookup_aset_same. reflexivity.
         * destruct (o_recursive o); [|simpl; rewrite Ec; reflexivity].
           destruct Hfx as [Hfx|Hfx]; [|discriminate].
-          unfold copy_tree. rewrite Hdry, Hfx. cbn [fst].
+          unfold copy_tree, copy_tree_gen. rewrite Hdry, Hfx. cbn [fst].
           rewrite alookup_app, Ec. cbn [alookup]. rewrite str_eqb_refl.
           rewrite lookup_path_touch, lookup_path_prune_excl; [reflexivity|discriminate|].
           rewrite <- excluded_below. exact Hex.
@@ -1095,7 +1103,7 @@ Section Walk7.
       + (* left only: copied as a whole *)
         assert (Ec : classify frepr deep n sdir ddir = LeftOnly) by (unfold classify; rewrite Es, Ed; reflexivity).
         rewrite Ec in *. unfold step1 in *. rewrite Hcn, Es in *.
-        rewrite Hrec in *. unfold copy_tree. rewrite Hdry. cbn [fst].
+        rewrite Hrec in *. unfold copy_tree, copy_tree_gen. rewrite Hdry. cbn [fst].
         rewrite alookup_app, Ed. cbn [alookup]. rewrite str_eqb_refl.
         rewrite lookup_path_touch.
         destruct (fix_excl cf).
